@@ -39,10 +39,10 @@ def run(ctx):
                 "The returned edge must denote the operation for all values of atoms and decision variables, the new "
                 "node must respect the variable order, and a cache entry must be valid for its key.")
     n = estep.run(ctx, F, kinds=("zbdd",))
-    ctx.floor("E-TABLE.step", "situations of the recursive step (set operations, subset0/subset1/change, apply_ite)", n, 90)
+    ctx.floor("E-TABLE.step", "situations of the recursive step (set operations, subset0/subset1/change, apply_ite, restrict)", n, 250)
     ctx.explain("E-TABLE.skip: DiagramRules::skipped_cofactor of every kind (override or trait default) is interpreted and must "
                 "yield the cofactors of an edge w.r.t. a variable above its node under the kind's semantics of a skipped level "
                 "(don't-care; zero-suppressed for ZBDDs); level_swap splits children below the lower level through it.")
     n = eskip.run(ctx, F)
     ctx.floor("E-TABLE.skip", "interpreted skipped-cofactor cases", n, 20)
-    ctx.not_decided = "restrict of the Boolean view, make_node, consistency after add_vars"
+    ctx.not_decided = "make_node, the tautology cache itself, consistency after add_vars beyond the cache events"
